@@ -24,14 +24,18 @@ import (
 
 // Bridge is one obfs4 bridge: the real server factory and what a reference peer needs to know.
 type Bridge struct {
-	SF      base.ServerFactory
-	ID      *ref.Identity // with private key
-	Cert    string
-	Seed    [24]byte
-	IAT     int
-	dir     string
-	NodeHex string
-	PubHex  string
+	// RefSkewHours: the reference client's clock is this many hours off (the bridge accepts -1..+1 and must answer
+	// under the hour the CLIENT used)
+	RefSkewHours int
+	RefUsedNow   time.Time // the clock reading the reference client last used
+	SF           base.ServerFactory
+	ID           *ref.Identity // with private key
+	Cert         string
+	Seed         [24]byte
+	IAT          int
+	dir          string
+	NodeHex      string
+	PubHex       string
 }
 
 // NewBridge builds a real server factory from explicit arguments (fresh random identity unless given).
@@ -107,8 +111,8 @@ type RefEnd struct {
 	// Noise, if set, is asked before every Write for control packets to send first: PRNG-seed packets
 	// (well-formed or not), unknown packet types, padding-only packets.  None of them may ever surface.
 	Noise func() (pktType byte, data []byte, pad int, ok bool)
-	mu  sync.Mutex
-	buf []byte
+	mu    sync.Mutex
+	buf   []byte
 }
 
 func (r *RefEnd) Write(b []byte) (int, error) {
@@ -175,7 +179,12 @@ func (b *Bridge) RefServer(padLen int, pad func() int, noise func() (byte, []byt
 
 func (b *Bridge) RefClient(padLen int, pad func() int, noise func() (byte, []byte, int, bool), out **ref.Conn) stream.Maker {
 	return func(raw net.Conn) (net.Conn, error) {
-		c, err := ref.ClientConn(raw, b.ID.PublicOnly(), rand.Reader, padLen, time.Now())
+		now := time.Now()
+		if sec := now.Unix() % 3600; b.RefSkewHours != 0 && sec > 10 && sec < 3590 { // (not across an hour tick)
+			now = now.Add(time.Duration(b.RefSkewHours) * time.Hour)
+		}
+		b.RefUsedNow = now
+		c, err := ref.ClientConn(raw, b.ID.PublicOnly(), rand.Reader, padLen, now)
 		if out != nil {
 			*out = c
 		}
